@@ -79,8 +79,9 @@ class TraceProp(Prop):
     def make_case(self, rng, tier):
         spec = proggen.random_spec(rng, shapes=self.shapes, plugins=self.pick_plugins(rng))
         n = rng.choice(self.steps_quick) if tier == 'quick' else rng.choice((10, 20, 40, 60))
-        prog = proggen.random_program(rng, spec, n, weights=self.weights)
-        case = {'spec': spec, 'autoflush': rng.random() < 0.3, 'program': prog}
+        autoflush = rng.random() < 0.3
+        prog = proggen.random_program(rng, spec, n, weights=self.weights, autoflush=autoflush)
+        case = {'spec': spec, 'autoflush': autoflush, 'program': prog}
         import os
         if rng.random() < float(os.environ.get('VERIF_JOIN_P', '0.1')):
             # session joined into an external connection-level transaction (SQLAlchemy's test-suite recipe)
@@ -240,6 +241,10 @@ class TraceProp(Prop):
         if v['clause'] == 'C01.newestIsLive' and (_row_switch_in(case.get('program') or []) or
                                                   'wf_violated:upd' in (obs.get('_tags') or [])):
             return 'C01.newestIsLive:row_switch'
+        # open finding F-CLASSSWITCH-TX: a key deleted as one class of a hierarchy and re-created as ANOTHER class of
+        # it within one transaction (different flushes) -> two version objects for one (key, transaction)
+        if v['clause'].endswith('.continuum_raised:IntegrityError') and class_switch_in_tx(case, obs):
+            return 'class_switch_in_tx:IntegrityError'
         return v['clause']
 
     def shrinks(self, case):
@@ -283,8 +288,9 @@ class C03(TraceProp):
     def make_case(self, rng, tier):
         spec = proggen.random_spec(rng, strategy='validity', plugins=[])
         n = rng.choice(self.steps_quick) if tier == 'quick' else rng.choice((10, 20, 40, 60))
-        prog = proggen.random_program(rng, spec, n, weights={'del': 4, 'readd': 4}, allow_class_switch=True)
-        return {'spec': spec, 'autoflush': rng.random() < 0.3, 'program': prog}
+        autoflush = rng.random() < 0.3
+        prog = proggen.random_program(rng, spec, n, weights={'del': 4, 'readd': 4}, allow_class_switch=True, autoflush=autoflush)
+        return {'spec': spec, 'autoflush': autoflush, 'program': prog}
 
     def class_switch(self, case):
         """does the program re-create a key as another class of its hierarchy?"""
@@ -305,26 +311,6 @@ class C03(TraceProp):
         out = TraceProp.judge(self, case, obs, answers)
         if self.class_switch(case):
             out.tags.append('class_switch')
-            # per-table chain of the base table (table of the root class) decided here only to tell the open
-            # finding (abandoned subclass table) from anything else
-            base_ok = True
-            for mk in obs['markers']:
-                rows = [r.split(' ') for r in mk['versions']]
-                by = {}
-                for f in rows:
-                    by.setdefault((f[0], f[1]), []).append((int(f[2]), f[3]))
-                for (tid, pk), vs in by.items():
-                    vs.sort()
-                    for i, (tx, end) in enumerate(vs):
-                        exp = 'N' if i == len(vs) - 1 else str(vs[i + 1][0])
-                        if end != exp and tid == '0':
-                            base_ok = False
-            if base_ok:
-                for v in out.violations:
-                    if v['clause'] == 'C03.Holds':
-                        v['clause'] = 'C03.Holds:abandoned_subclass_table'
-                for m in out.mismatches:
-                    m['signature'] = 'C03.Holds:abandoned_subclass_table'
         return out
 
 
@@ -335,6 +321,49 @@ class DevAll(TraceProp):
     sections = ('versions', 'txs', 'assoc', 'changes', 'mgr')
     seg_fields = tuple(SEG_FIELDS)
     rule = 'dev'
+
+
+def class_switch_in_tx(case, obs):
+    """from the steps that were actually executed: was a key deleted and then added as another class of its
+    hierarchy before the transaction ended?"""
+    from .. import envs
+    spec = case['spec']
+
+    def root(cname):
+        c = envs.class_spec(spec, cname)
+        while c.get('parent'):
+            c = envs.class_spec(spec, c['parent'])
+        return c['name']
+    steps = obs.get('steps') or []
+    cls_of, committed, deleted = {}, {}, {}
+    for st, status in zip(case.get('program') or [], steps):
+        if status != 'ok':
+            if status == 'error':
+                # the failing step itself: an add after a delete of another class counts
+                if st[0] == 'add' and deleted.get((root(st[1]), tuple(st[2])), st[1]) != st[1]:
+                    return True
+            if st[0] in ('commit', 'flush', 'query') and status == 'error':
+                pass
+            if status != 'error':
+                continue
+        if st[0] == 'add':
+            k = (root(st[1]), tuple(st[2]))
+            if k in deleted and deleted[k] != st[1]:
+                return True
+            cls_of[k] = st[1]
+        elif st[0] == 'del':
+            k = (root(st[1]), tuple(st[2]))
+            deleted[k] = cls_of.get(k, st[1])
+        elif st[0] == 'commit' and status == 'ok':
+            for k in deleted:
+                if cls_of.get(k) == deleted[k] and k in cls_of:
+                    pass
+            committed = dict(cls_of)
+            deleted = {}
+        elif st[0] == 'rollback':
+            cls_of = dict(committed)
+            deleted = {}
+    return False
 
 
 def _row_switch_in(program):
